@@ -115,15 +115,22 @@ func XAddEdits(t string) []Edit {
 }
 
 // MapEdits adds one '%' line to a map that no name of any file selects: b1
-// sorts before, z1 after every map the alphabet's names select (c1, m1, m2, m3).
+// sorts before, z1 after every map the alphabet's names select (c1, e9, m1, m2,
+// m3, r1, r2, r3); M1 and \355\061 are the upper-case and the high-bit twin of
+// the skeleton's map id m1 (a map id is an opaque pair of bytes, like a
+// location id).
 func MapEdits() []Edit {
 	var out []Edit
-	for _, id := range []string{"b1", "z1"} {
+	for _, id := range []string{"b1", "z1", "M1", `\355\061`} {
 		for _, x := range []struct{ slug, loc, cidr string }{
 			{"d6", "cc", "::/0"}, {"d4", "cc", "0.0.0.0/0"}, {"n8", "aa", "8.8.8.0/24"}, {"n10", "bb", "10.0.0.0/8"},
 		} {
-			q := x.slug == "d6" || (x.slug == "n10" && id == "b1") || (x.slug == "n8" && id == "z1")
-			out = append(out, Edit{ID: "map:" + x.slug + "-" + id, Kind: "map", Quick: q, Why: "subnet in a map no name selects", line: Net(x.loc, x.cidr, id)})
+			twin := id != "b1" && id != "z1"
+			if twin && x.slug != "n10" && x.slug != "n8" {
+				continue
+			}
+			q := x.slug == "d6" || (x.slug == "n10" && id == "b1") || (x.slug == "n8" && id == "z1") || (x.slug == "n10" && id == "M1")
+			out = append(out, Edit{ID: "map:" + x.slug + "-" + LocSlug(id), Kind: "map", Quick: q, Why: "subnet in a map no name selects", line: Net(x.loc, x.cidr, id)})
 		}
 	}
 	return out
